@@ -13,6 +13,9 @@ Decided (DESIGN.md section 5, C06):
            W2-refill-result-decides        every caller of the window refill method branches on its result; where the result is
                                            ignored or false, the window is only read through calls bounded by the end pointer
            W3-no-stale-local               no local pointer into a piece / carry-over is used after the string was mutated
+           W4-varint-read-window-refilled  an end-bounded decode straight from the window (decode_varint(&m_data, m_end)) is preceded on
+                                           every path by a refill request for >= max_varint_length bytes (result may be ignored); a
+                                           smaller request makes "premature end" depend on a piece boundary inside the varint
  clause 2  M1-carry-over-mutation-whitelist every mutation of a carry-over is: append of the whole new piece, append of the
                                            piece's prefix up to its first line break, erase of a prefix, capacity change, or
                                            (local carry-over only) clear / assignment of the unconsumed suffix of the current
@@ -29,8 +32,10 @@ Decided (DESIGN.md section 5, C06):
            M6-held-bytes-delivered         (OPL) bytes put into the local carry-over reach the consumer on every path to the exit
  clause 3  E1-refill-cycle-tests-end-of-input   every cycle through get_input() passes an edge on which input_done() is false
            E2-failure-exit-guarded-by-end-of-input  "truncated" exits of refill methods are guarded by input_done() == true
-           E3-piece-loop-exits-at-end-of-input  a loop that pops pieces and drives the parse (line_by_line, XMLParser::run) is only
-                                           left on an input_done()==true or read_types()==nothing edge (break / return / condition);
+           E3-piece-loop-exits-at-end-of-input  a loop that pops pieces and drives the parse (line_by_line, XMLParser::run, and
+                                           O5mParser::decode_data through the refill method) is only left at end of input
+                                           (input_done() true / refill said false) or after read_types()==nothing AND header_is_done()
+                                           (the header-only stop is legitimate only once the header promise is fulfilled);
                                            for the PBF / o5m refill loops the same clause is M5#gives-up-only-at-end-of-input
            (M1 also covers the XML text accumulator m_comment_text: append-only in the expat character-data callback closure,
             cleared only in the element handlers -- expat splits a text node at piece boundaries and entity references)
@@ -122,13 +127,20 @@ def _is_call(n, q=None, prefix=None):
 
 
 def _cond_atom(fn, cid):
-    """strip leading negations of a condition: (node, negated?)"""
+    """The expression that decides a two-way branch: leading negations are stripped (node, negated?).  For the last block of a
+    short-circuit chain clang gives the whole `a && b` / `a || b` as the condition; it is reached only when the left operand did
+    not decide, so the deciding expression is the right operand."""
     neg = False
     n = fn.sn(cid)
     hops = 0
-    while n is not None and n.get('k') == 'unop' and n['op'] == '!' and hops < 8:
-        neg = not neg
-        n = fn.sn(n['sub'])
+    while n is not None and hops < 16:
+        if n.get('k') == 'unop' and n['op'] == '!':
+            neg = not neg
+            n = fn.sn(n['sub'])
+        elif n.get('k') == 'binop' and n['op'] in ('&&', '||'):
+            n = fn.sn(n['rhs'])
+        else:
+            break
         hops += 1
     return n, neg
 
@@ -660,7 +672,64 @@ def window_rules(fb, R, S=None, records=None):
                         'the result of %s is %s here, yet the window is then read without an end bound before the next refill: %s'
                         % (_short(c['q']), how, describe_path(fn, wit)),
                         'result %s; window only read through end-bounded calls until the next refill' % ('branches' if not discarded else 'ignored'))
+        _window_consumer_rules(fb, R, w, refill, rusr)
     return wins
+
+
+VARINT_MAX = {'protozero::decode_varint': 10, 'protozero::decode_zigzag64': 10}   # bytes a bounded decode may consume (protozero::max_varint_length)
+
+
+def _window_consumer_rules(fb, R, w, refill, rusr):
+    """W4 and E3 for the methods that consume the window (callers of the refill method)."""
+    others = set(w['ptrs']) - w['begin']
+    for fn in w['methods']:
+        if fn.usr in rusr:
+            continue
+        calls = [n for n in fn.all_nodes() if n.get('k') == 'call' and n.get('u') in rusr]
+        if not calls:
+            continue
+        # ---- E3: a loop driven by the refill method is left only when it said false (= end of input, M5), or header-only stop
+        eof_edges = set()
+        for c in calls:
+            how, tests = _result_use(fn, c)
+            if how == 'cond':
+                eof_edges |= set(tests)
+        for c in calls:
+            _piece_loop_exits(fn, c, R, eof_edges, what='%s()' % _short(c['q']))
+        # ---- W4: an end-bounded decode straight from the window (f(&begin, end)) is preceded on every path by a refill request for
+        # at least the bytes the decode may consume.  The result of that request may be ignored (the decode is bounded and the refill
+        # method only gives up at end of input), but a smaller request followed by a bounded decode that throws "premature end" depends
+        # on where a piece boundary falls inside the varint.
+        for n in fn.all_nodes():
+            if n.get('k') != 'call' or n.get('u') in rusr:
+                continue
+            has_b = has_e = False
+            for a in _real_args(fn, n):
+                for y in fn.subtree(a):
+                    ny = fn.nodes[y]
+                    if ny.get('k') == 'member' and ny.get('field'):
+                        has_b = has_b or ny.get('q') in w['begin']
+                        has_e = has_e or ny.get('q') in others
+            if not (has_b and has_e):
+                continue
+            key = '%s#%s-prefetched' % (fn.q, _short(n.get('q', n.get('name', '?'))))
+            need = VARINT_MAX.get(n.get('q'))
+            if need is None:
+                R.broken('%s: end-bounded read %s straight from the input window: maximal consumption unknown to rule W4' % (fn.q, n.get('q')))
+                continue
+            suff = {c['id'] for c in calls if (fn.const_value(_real_args(fn, c)[0]) or 0) >= need} if all(_real_args(fn, c) for c in calls) else set()
+            nid = n['id']
+            wit = path_search(fn, fn.entry, lambda e: e == nid, lambda e: e in suff, _normal_edges(fn), from_block_start=True)
+            last = None
+            if wit is not None:
+                last = next((fn.nodes[e] for e in reversed(wit) if not isinstance(e, tuple) and fn.nodes[e].get('k') == 'call'
+                             and fn.nodes[e].get('u') in rusr), None)
+            R.check(wit is None, 'W4-varint-read-window-refilled', key, fn.loc(nid),
+                    '%s decodes a value of up to %d bytes straight from the input window, but on some path the last refill request before it '
+                    'is %s, not a request for >= %d bytes: if a piece boundary falls inside the value, the bounded decode runs into the window '
+                    'end and a valid file is reported as truncated' % (fn.q, need, ('%s(%s)' % (_short(last['q']), fn.expr(_real_args(fn, last)[0]))) if last
+                                                                         else 'missing', need),
+                    'every path passes a refill request for >= %d bytes' % need)
 
 
 def local_rules(fb, R, S=None):
@@ -1063,12 +1132,16 @@ def _keeps_in_member(fn, pieces):
                if _is_call(n, prefix=STR) and _carrier_of(fn, n) is not None and _carrier_of(fn, n)[0] == 'field')
 
 
-def _piece_loop_exits(fn, g, R):
-    """E3: a loop whose iterations pop pieces may only be left (loop condition false, break, return, goto) on an edge where
-    input_done() is true or where the consumer wants nothing more (read_types() == nothing), or exceptionally."""
+def _piece_loop_exits(fn, g, R, eof_edges=None, what='get_input()'):
+    """E3: a loop whose iterations pop pieces (get_input(), or a call of the window refill method) may only be left (loop
+    condition false, break, return, goto) on an edge where end of input is known (input_done() true / the refill method said
+    false), or -- the header-only early stop -- after BOTH read_types() == nothing and header_is_done() were seen true since the
+    pop, or exceptionally.  `read_types() == nothing` alone is not enough: the header promise must already be fulfilled, else the
+    header delivered depends on where the first piece ends."""
     pos = fn.positions()
     gb = pos[g['id']][0]
     ok_edge = _normal_edges(fn)
+    eof_edges = eof_edges or set()
 
     def reach(start, forward=True):
         seen = {start}
@@ -1092,7 +1165,7 @@ def _piece_loop_exits(fn, g, R):
     body = fwd & reach(gb, forward=False)
     key = '%s#piece-loop-exit' % fn.q
     if gb not in body:
-        R.ok('E3-piece-loop-exits-at-end-of-input', key, fn.loc(g['id']), 'get_input() is not inside a loop')
+        R.ok('E3-piece-loop-exits-at-end-of-input', key, fn.loc(g['id']), '%s is not inside a loop' % what)
         return
     dp = _done_pred_for(fn)
 
@@ -1106,33 +1179,55 @@ def _piece_loop_exits(fn, g, R):
                 return True
         return False
 
-    def allowed(b, idx):
-        return _edge_value(fn, b, idx, dp) is True or _edge_value(fn, b, idx, nothing_wanted) is True
-    # blocks of the body reachable from the pop without crossing an allowed edge; any edge from them that leaves the body is a violation
-    seen = {gb}
-    work = [(gb, [])]
+    def header_done(n):
+        return _is_call(n, PARSER + '::header_is_done')
+
+    def at_eof(b, idx):
+        return _edge_value(fn, b, idx, dp) is True or (b, idx) in eof_edges
+
+    def facts_of(b, idx):
+        f = set()
+        if _edge_value(fn, b, idx, nothing_wanted) is True:
+            f.add('nothing')
+        if _edge_value(fn, b, idx, header_done) is True:
+            f.add('header')
+        return f
+    # (block, facts seen since the pop) reachable from the pop without crossing an end-of-input edge; an edge from there that leaves
+    # the body is a violation unless both early-stop facts hold
+    start = (gb, frozenset())
+    seen = {start}
+    work = [(gb, frozenset(), [])]
     wit = None
     while work and wit is None:
-        b, path = work.pop(0)
+        b, facts, path = work.pop(0)
         elems = fn.blocks[b]['elems']
         if b == gb and not path:
             elems = elems[pos[g['id']][1] + 1:]
         if any(_is_throw(fn, e) for e in elems) or fn.blocks[b].get('noreturn'):
             continue
         for idx, s_ in enumerate(fn.blocks[b]['succs']):
-            if s_ is None or allowed(b, idx):
+            if s_ is None or at_eof(b, idx):
                 continue
+            f2 = frozenset(facts | facts_of(b, idx))
             if s_ not in body:
-                wit = path + [('B', b), ('B', s_)]
-                break
-            if s_ not in seen:
-                seen.add(s_)
-                work.append((s_, path + [('B', b)]))
-    R.check(wit is None, 'E3-piece-loop-exits-at-end-of-input', key, fn.loc(g['id']),
-            'the loop of %s that pops input pieces can be left although input_done() is not known to be true (and the consumer did not '
-            'ask for "nothing"): the rest of the input is dropped and what is held is treated as the last piece -- the result depends on '
-            'how many pieces a line / document spans: %s' % (fn.q, describe_path(fn, wit)),
-            'every exit of the piece loop is on an input_done()==true or read_types()==nothing edge')
+                if not {'nothing', 'header'} <= f2:
+                    wit = (path + [('B', b), ('B', s_)], f2)
+                    break
+                continue
+            if s_ == gb:
+                continue   # next iteration: the facts are about the previous pop
+            if (s_, f2) not in seen:
+                seen.add((s_, f2))
+                work.append((s_, f2, path + [('B', b)]))
+    msg = ''
+    if wit is not None:
+        extra = ' (read_types() == nothing was seen, but not header_is_done(): a header-only read would return whatever part of the header ' \
+                'the first pieces happened to contain)' if 'nothing' in wit[1] else ''
+        msg = 'the loop of %s that pops input pieces (%s) can be left although end of input is not known%s: the rest of the input is ' \
+              'dropped and what is held is treated as complete -- the result depends on how the stream is cut: %s' \
+              % (fn.q, what, extra, describe_path(fn, wit[0]))
+    R.check(wit is None, 'E3-piece-loop-exits-at-end-of-input', key, fn.loc(g['id']), msg,
+            'every exit of the piece loop is at end of input, or after read_types()==nothing && header_is_done()')
 
 
 def eof_rules(fb, R, M=None):
@@ -1618,7 +1713,8 @@ def run(ctx):
     R.expect('M5-refill-until-needed', 6)            # PBF ensure_available_in_input_queue, o5m ensure_bytes_available: condition, success-implies-enough, gives-up-only-at-end-of-input
     R.expect('M6-held-bytes-delivered', 1)           # line_by_line rest
     R.expect('E1-refill-cycle-tests-end-of-input', 4)
-    R.expect('E3-piece-loop-exits-at-end-of-input', 2)  # line_by_line, XMLParser::run (the PBF / o5m refill loops: M5)
+    R.expect('W4-varint-read-window-refilled', 1)    # decode_data: decode_varint(&m_data, m_end) after ensure_bytes_available(max_varint_length)
+    R.expect('E3-piece-loop-exits-at-end-of-input', 3)  # line_by_line, XMLParser::run, O5mParser::decode_data (the PBF / o5m refill loops: M5)
     R.expect('E2-failure-exit-guarded-by-end-of-input', 2)  # PBF throw after the pop; o5m `return false` before the pop (3 before the F2 fix a950292)
     R.expect('X2-xml-final-flag-from-queue-state', 1)
     R.expect('X3-xml-parse-args', 1)
@@ -1634,5 +1730,5 @@ def _selftest(fb, R):
 SELFTESTS = [(r, 'c06_chunking.cpp', _selftest) for r in (
     'W1-window-rederived', 'W2-refill-result-decides', 'W3-no-stale-local', 'M1-carry-over-mutation-whitelist', 'M2-piece-kept',
     'M3-erase-is-consumed-prefix', 'M4-ensure-pop-paired', 'M5-refill-until-needed', 'M6-held-bytes-delivered',
-    'E1-refill-cycle-tests-end-of-input', 'E2-failure-exit-guarded-by-end-of-input', 'E3-piece-loop-exits-at-end-of-input', 'X2-xml-final-flag-from-queue-state',
+    'W4-varint-read-window-refilled', 'E1-refill-cycle-tests-end-of-input', 'E2-failure-exit-guarded-by-end-of-input', 'E3-piece-loop-exits-at-end-of-input', 'X2-xml-final-flag-from-queue-state',
     'X3-xml-parse-args', 'T1-read-thread-forwards-piece', 'F1-fd-read-is-exact', 'F2-read-exactly-accumulates')]
